@@ -108,7 +108,8 @@ func (c15Engine) Gen(g *Gen) {
 		g.Emit(mkC15In(s))
 	}
 	for _, s := range []string{"", "_", "__", ".", "fooBAR9x", "_fooBAR", "Éa", "JSONStringFooBar", "_JString", "__Double", ".foo.bar",
-		"_foo_bar", "myJSON", "ABC1DEF", "123def", "_Privatish", "foo_Bar", "JSON_string", "My_JSON", "foo.Bar", "_Xy", "_XYz", "aǅb", "٣abc٣", "ÉÉa", "_Éa"} {
+		"_foo_bar", "myJSON", "ABC1DEF", "123def", "_Privatish", "foo_Bar", "JSON_string", "My_JSON", "foo.Bar", "_Xy", "_XYz", "aǅb", "٣abc٣", "ÉÉa", "_Éa",
+		"a\ufffdb", "HTTP\ufffdServer", "\ufffd", "x\ufffd9\ufffdY", "x²y", "a½B", "ⅣFoo", "HTTP-proxy", "foo-bar_baz", "a\xffB\xfe"} {
 		emit(s)
 	}
 	alpha := []string{"a", "B", "1", "_", ".", "É"}
@@ -144,7 +145,7 @@ func (c15Engine) Gen(g *Gen) {
 	}
 	rec2("", maxLen+1)
 	pool := []string{"a", "b", "z", "A", "B", "Z", "0", "9", "_", ".", "É", "é", "Ω", "ω", "Ж", "ж", "ǅ", "ǈ", "٣", "５", "ß", "ı", "İ", "ﬁ",
-		"́", "😀", "中", " ", "-", "\xff", "\xc3", "\x00", "ᾈ", "Ⅷ", "²", "½"}
+		"́", "😀", "中", " ", "-", "\xff", "\xc3", "\x00", "ᾈ", "Ⅷ", "²", "½", "\ufffd", "\u2082", "\u2028", "\u00a0", "\xef\xbf", "\xed\xa0\x80"}
 	n := 5000
 	if g.Thorough() {
 		n = 150000
@@ -188,8 +189,15 @@ func (c15Engine) Run(raw json.RawMessage) (interface{}, error) {
 	_ = pgs.Name("").Transform(mark, mark, "")
 	_ = n.Transform(mark, mark.Chain(strings.ToUpper), "~")
 	obs := c15Obs{Parts: [][]int{}, Conv: [][]int{}}
+	valid := utf8.ValidString(in.S.String())
 	for _, p := range n.Split() {
-		obs.Parts = append(obs.Parts, runesOf(p))
+		rs := runesOf(p)
+		// the observation is in runes; a part of a well-formed name that is not well-formed UTF-8
+		// itself (bytes of a character lost) would read the same in runes: mark it
+		if valid && !utf8.ValidString(p) {
+			rs = append(rs, 0x10FFFF)
+		}
+		obs.Parts = append(obs.Parts, rs)
 	}
 	for _, c := range []pgs.Name{n.UpperCamelCase(), n.LowerCamelCase(), n.ScreamingSnakeCase(), n.LowerSnakeCase(),
 		n.UpperSnakeCase(), n.SnakeCase(), n.LowerDotNotation(), n.UpperDotNotation()} {
